@@ -201,6 +201,15 @@ def check_constructed(kind, mode):
         "Label(a=filled Select(s,b), b=Select(s,b))": lambda: hg.Label(a=_filled(hg.Select(s, b), mode), b=hg.Select(s, b)),
         "Select(s, Branch(c,c))": lambda: hg.Select(s, hg.Branch(c, c)),
         "Fraction root: numerator is denominator": lambda: _frac(hg, s, c),
+        # the collections' .ed() constructors keep live (fillable) aggregators too
+        "Label.ed(0,a=c,b=c)": lambda: hg.Label.ed(0.0, a=c, b=c),
+        "UntypedLabel.ed(0,a=c,b=c)": lambda: hg.UntypedLabel.ed(0.0, a=c, b=c),
+        "Index.ed(0,c,c)": lambda: hg.Index.ed(0.0, c, c),
+        "Branch.ed(0,c,c)": lambda: hg.Branch.ed(0.0, c, c),
+        "Branch.ed(0,Select(s,b),Select(s,b))": lambda: hg.Branch.ed(0.0, hg.Select(s, b), hg.Select(s, b)),
+        "Branch(Count,Index.ed(0,c,c))": lambda: hg.Branch(hg.Count(), hg.Index.ed(0.0, c, c)),
+        "Label.ed(0,a=Branch(c,Count),b=Branch(Count,c))": lambda: hg.Label.ed(0.0, a=hg.Branch(c, hg.Count()),
+                                                                              b=hg.Branch(hg.Count(), c)),
     }
     out = []
     try:
@@ -241,7 +250,9 @@ def _frac(hg, s, c):
 CONSTRUCTED = ["Branch(filled Select(s,c), c)", "Label(a=filled Select(s,b), b=Select(s,b))", "Select(s, Branch(c,c))",
                "Fraction root: numerator is denominator","Label(a=c,b=c)", "UntypedLabel(a=c,b=c)", "Index(c,c)", "Branch(c,c)", "Branch(Select(s,b),Select(s,b))",
                "Branch(b,Select(s,b))", "Label(a=Select(s,c),b=Select(s,c))", "Index(Branch(c,b),Branch(b,c))",
-               "Branch(c,Branch(Count,Branch(c)))"]
+               "Branch(c,Branch(Count,Branch(c)))", "Label.ed(0,a=c,b=c)", "UntypedLabel.ed(0,a=c,b=c)", "Index.ed(0,c,c)",
+               "Branch.ed(0,c,c)", "Branch.ed(0,Select(s,b),Select(s,b))", "Branch(Count,Index.ed(0,c,c))",
+               "Label.ed(0,a=Branch(c,Count),b=Branch(Count,c))"]
 
 
 def check_unshared(spec, mode, shared_template):
